@@ -85,43 +85,80 @@ Definition tables_ok (T : text_tables) : bool :=
 
 (* A value that is written verbatim (node xpaths, tag and attribute names,
    namespace prefixes and URIs): no comma, no double quote, no line-break
-   character, no leading or trailing white space.  The empty string is fine. *)
+   character, no leading or trailing white space, and when it begins with a brace (a Clark
+   name {uri}local) the brace is closed.  The empty string is fine. *)
 Definition raw_char (c : N) : Prop := c <> 44 /\ c <> 34 /\ is_linebreak c = false.
-Definition raw_ok (s : str) : Prop := Forall raw_char s /\ strip s = s.
+Definition clark_closed (s : str) : Prop :=
+  match s with c :: r => c = 123 -> In 125 r | [] => True end.
+Definition raw_ok (s : str) : Prop := Forall raw_char s /\ strip s = s /\ clark_closed s.
 
 Definition raw_charb (c : N) : bool := negb (c =? 44) && negb (c =? 34) && negb (is_linebreak c).
-Definition raw_okb (s : str) : bool := forallb raw_charb s && str_eqb (strip s) s.
+Definition clark_closedb (s : str) : bool :=
+  match s with c :: r => negb (c =? 123) || existsb (N.eqb 125) r | [] => true end.
+Definition raw_okb (s : str) : bool := forallb raw_charb s && str_eqb (strip s) s && clark_closedb s.
 
-(* ... or, more generally, a value whose commas all stand inside double-quoted literals (with backslash escapes) that
-   are closed again -- hand-written paths such as /doc/para[@id="intro, part 1"]: DiffParser._split does not split
-   there.  [bal s in_string escaped]: scanning s in the splitter's state ends outside a literal without meeting a
-   separator. *)
-Fixpoint bal (s : str) (in_string escaped : bool) : bool :=
+(* ... or, more generally, a value that DiffParser._split reads as ONE field: every comma stands inside a closed
+   double-quoted literal (with backslash escapes) -- hand-written paths such as /doc/para[@id="intro, part 1"] -- or
+   inside the braces of a Clark name at the beginning of the field, {tag:example.org,2005:x}name (the namespace part
+   may hold any character but a closing brace).
+   [balc s in_clark in_string escaped blank]: scanning s in the splitter's state (blank: the field so far is white
+   space only) ends outside a literal and outside the braces without meeting a separator. *)
+Fixpoint balc (s : str) (k i e blank : bool) : bool :=
   match s with
-  | [] => negb in_string
+  | [] => negb i && negb k
   | c :: r =>
-      if in_string then
-        if escaped then bal r true false
-        else if c =? 92 then bal r true true
-        else if c =? 34 then bal r false false
-        else bal r true false
+      if k then balc r (negb (c =? 125)) i e (is_space c && blank)
+      else if i then
+        if e then balc r false true false (is_space c && blank)
+        else if c =? 92 then balc r false true true (is_space c && blank)
+        else if c =? 34 then balc r false false false (is_space c && blank)
+        else balc r false true false (is_space c && blank)
       else if c =? 44 then false
-      else bal r (c =? 34) escaped
+      else balc r ((c =? 123) && blank) (c =? 34) e (is_space c && blank)
   end.
-Definition rawq_ok (s : str) : Prop := bal s false false = true /\ no_lb s /\ strip s = s.
+Definition rawq_ok (s : str) : Prop := balc s false false false true = true /\ no_lb s /\ strip s = s.
 Definition rawq_okb (s : str) : bool :=
-  bal s false false && forallb (fun c => negb (is_linebreak c)) s && str_eqb (strip s) s.
+  balc s false false false true && forallb (fun c => negb (is_linebreak c)) s && str_eqb (strip s) s.
 
-Lemma bal_plain s : Forall (fun c => c <> 44 /\ c <> 34) s -> bal s false false = true.
+(* no comma, no quote, and never at the beginning of a field: the scan goes straight through *)
+Lemma balc_plain s : Forall (fun c => c <> 44 /\ c <> 34) s -> balc s false false false false = true.
 Proof.
-  induction 1 as [|c s [H1 H2] Hs IH]; [reflexivity|]. cbn [bal].
-  apply N.eqb_neq in H1, H2. rewrite H1, H2. exact IH.
+  induction 1 as [|c s [H1 H2] Hs IH]; [reflexivity|]. cbn [balc].
+  apply N.eqb_neq in H1, H2. rewrite H1, H2. rewrite !andb_false_r. exact IH.
+Qed.
+
+Lemma balc_clark s : Forall (fun c => c <> 44 /\ c <> 34) s -> In 125 s -> balc s true false false false = true.
+Proof.
+  induction 1 as [|c s Hc Hs IH]; intros Hin; [destruct Hin|]. cbn [balc]. rewrite andb_false_r.
+  destruct (c =? 125) eqn:E; cbn [negb].
+  - apply balc_plain, Hs.
+  - apply IH. destruct Hin as [->|Hin]; [discriminate|exact Hin].
+Qed.
+
+Lemma lstrip_len s : (length (lstrip s) <= length s)%nat.
+Proof. induction s as [|c s IH]; [apply le_n|]. cbn [lstrip]. destruct (is_space c); cbn [length]; lia. Qed.
+Lemma strip_len s : (length (strip s) <= length s)%nat.
+Proof.
+  unfold strip, rstrip. rewrite rev_length.
+  etransitivity; [apply lstrip_len|]. rewrite rev_length. apply lstrip_len.
+Qed.
+Lemma strip_hd c r : strip (c :: r) = c :: r -> is_space c = false.
+Proof.
+  intros H. destruct (is_space c) eqn:E; [|reflexivity].
+  rewrite (strip_space_cons c r E) in H. pose proof (strip_len r) as L. rewrite H in L. cbn [length] in L. lia.
 Qed.
 
 Lemma raw_rawq s : raw_ok s -> rawq_ok s.
 Proof.
-  intros [Hc Hs]. split; [|split; [|exact Hs]].
-  - apply bal_plain. eapply Forall_impl; [|exact Hc]. intros c (H1 & H2 & _). auto.
+  intros (Hc & Hs & Hk). split; [|split; [|exact Hs]].
+  - assert (Hp : Forall (fun c => c <> 44 /\ c <> 34) s)
+      by (eapply Forall_impl; [|exact Hc]; intros c (H1 & H2 & _); auto).
+    destruct s as [|c r]; [reflexivity|].
+    inversion Hp as [|? ? [H1 H2] Hr]; subst. cbn [balc].
+    apply N.eqb_neq in H1, H2. rewrite H1, H2. rewrite (strip_hd _ _ Hs). cbn [andb]. rewrite andb_true_r.
+    destruct (c =? 123) eqn:E.
+    + apply balc_clark; [exact Hr|]. apply Hk. apply N.eqb_eq, E.
+    + apply balc_plain, Hr.
   - eapply Forall_impl; [|exact Hc]. intros c (_ & _ & H3). exact H3.
 Qed.
 
@@ -131,6 +168,30 @@ Proof.
   split.
   - intros [[H1 H2] H3]. split; [exact H1|]. split; [|exact H3]. intros c Hc. apply negb_true_iff, H2, Hc.
   - intros (H1 & H2 & H3). split; [split; [exact H1|]|exact H3]. intros c Hc. apply negb_true_iff, H2, Hc.
+Qed.
+
+(* a Clark name whose namespace part holds commas, quotes, anything but a closing brace and a line break *)
+Lemma clark_rawq u l :
+  ~ In 125 u -> no_lb u -> Forall (fun c => 33 <= c <= 126 /\ c <> 44 /\ c <> 34) l -> l <> [] ->
+  rawq_ok (123 :: u ++ 125 :: l).
+Proof.
+  intros Hu Hlb Hl Hne. split; [|split].
+  - cbn [balc]. change (123 =? 44) with false. change (123 =? 34) with false. change (123 =? 123) with true.
+    change (is_space 123) with false. cbn [andb]. cbv match.
+    assert (G : forall u, ~ In 125 u -> balc (u ++ 125 :: l) true false false false = true).
+    { clear -Hl. induction u as [|c u IH]; intros Hu; cbn [app balc]; rewrite ?andb_false_r.
+      - change (125 =? 125) with true. cbn [negb]. apply balc_plain.
+        eapply Forall_impl; [|exact Hl]. intros c (_ & H1 & H2). auto.
+      - destruct (c =? 125) eqn:E; [apply N.eqb_eq in E; subst; exfalso; apply Hu; left; reflexivity|].
+        cbn [negb]. apply IH. intros H. apply Hu. right. exact H. }
+    apply G, Hu.
+  - constructor; [reflexivity|]. apply Forall_app. split; [exact Hlb|]. constructor; [reflexivity|].
+    eapply Forall_impl; [|exact Hl]. intros c (H1 & _). apply is_linebreak_printable. lia.
+  - destruct (exists_last Hne) as (l' & z & ->).
+    replace (123 :: u ++ 125 :: l' ++ [z]) with (123 :: (u ++ 125 :: l') ++ [z])
+      by (rewrite <- app_assoc; reflexivity).
+    apply strip_delimited; [reflexivity|].
+    apply Forall_app in Hl as [_ Hz]. inversion Hz as [|? ? (Hz1 & _) _]; subst. apply is_space_graph. lia.
 Qed.
 
 Definition wf_val (e : enc) (v : pyval) : Prop :=
@@ -181,14 +242,26 @@ Definition wf_actionb (T : text_tables) (a : gaction) : bool :=
   | _, _ => false
   end.
 
+Lemma clark_closedb_spec s : clark_closedb s = true <-> clark_closed s.
+Proof.
+  destruct s as [|c r]; cbn [clark_closedb clark_closed]; [tauto|].
+  rewrite orb_true_iff, negb_true_iff, N.eqb_neq, existsb_exists. split.
+  - intros [H|(x & Hx & E)] Hc; [contradiction|]. apply N.eqb_eq in E. subst x. exact Hx.
+  - intros H. destruct (N.eq_dec c 123) as [E|E]; [right|left; exact E].
+    exists 125. split; [apply H, E|apply N.eqb_refl].
+Qed.
+
 Lemma raw_okb_spec s : raw_okb s = true <-> raw_ok s.
 Proof.
-  unfold raw_okb, raw_ok. rewrite andb_true_iff, str_eqb_eq, forallb_forall, Forall_forall.
-  split; intros [H1 H2]; (split; [|exact H2]); intros c Hc; specialize (H1 c Hc);
+  unfold raw_okb, raw_ok. rewrite !andb_true_iff, str_eqb_eq, forallb_forall, Forall_forall, clark_closedb_spec.
+  split.
+  - intros [[H1 H2] H3]. split; [|split; assumption]. intros c Hc. specialize (H1 c Hc).
     unfold raw_charb, raw_char in *.
-  - apply andb_true_iff in H1 as [H1 H3]. apply andb_true_iff in H1 as [H1 H4].
-    apply negb_true_iff in H1, H3, H4. apply N.eqb_neq in H1, H4. auto.
-  - destruct H1 as (H1 & H3 & H4). apply N.eqb_neq in H1, H3. rewrite H1, H3, H4. reflexivity.
+    apply andb_true_iff in H1 as [H1 H4]. apply andb_true_iff in H1 as [H1 H5].
+    apply negb_true_iff in H1, H4, H5. apply N.eqb_neq in H1, H5. auto.
+  - intros (H1 & H2 & H3). split; [split; [|assumption]|assumption]. intros c Hc. specialize (H1 c Hc).
+    unfold raw_charb, raw_char in *.
+    destruct H1 as (H1 & H4 & H5). apply N.eqb_neq in H1, H4. rewrite H1, H4, H5. reflexivity.
 Qed.
 
 (* wf_valb / field_okb / wf_actionb: the PLAIN sufficient test (raw fields without any comma or quote), used where the
@@ -339,39 +412,48 @@ Proof. destruct a, b; cbn; congruence. Qed.
 (* A string over which DiffParser._split, started outside a string literal,
    ends outside a string literal without having split. *)
 Definition neutral (p : str) : Prop :=
-  forall r part parts,
-    split_aux (p ++ r) part false false parts = split_aux r (rev p ++ part) false false parts.
+  forall r part parts, blankb part = true ->
+    split_aux (p ++ r) part false false false parts = split_aux r (rev p ++ part) false false false parts.
 
-Lemma neutral_plain p : Forall (fun c => c <> 44 /\ c <> 34) p -> neutral p.
+Lemma neutral_plain p : Forall (fun c => c <> 44 /\ c <> 34 /\ c <> 123) p -> neutral p.
 Proof.
-  induction p as [|c p IH]; intros H r part parts.
+  intros H r part parts _. revert part.
+  induction H as [|c p (H1 & H2 & H3) Hp IH]; intros part.
   - reflexivity.
-  - inversion H as [|? ? [H1 H2] Hp]; subst.
-    cbn [app split_aux]. decide_cmp. cbv match.
-    rewrite (IH Hp). cbn [rev]. rewrite <- app_assoc. reflexivity.
+  - cbn [app split_aux]. apply N.eqb_neq in H1, H2, H3. rewrite H1, H2, H3. cbn [andb]. cbv match.
+    rewrite IH. cbn [rev]. rewrite <- app_assoc. reflexivity.
 Qed.
 
-Lemma bal_split s : forall i e, (i = false -> e = false) -> bal s i e = true ->
-  forall r part parts, split_aux (s ++ r) part i e parts = split_aux r (rev s ++ part) false false parts.
+Lemma blankb_cons c part : blankb (c :: part) = is_space c && blankb part.
+Proof. reflexivity. Qed.
+
+Lemma balc_split s : forall k i e part, (i = false -> e = false) -> balc s k i e (blankb part) = true ->
+  forall r parts, split_aux (s ++ r) part k i e parts = split_aux r (rev s ++ part) false false false parts.
 Proof.
-  induction s as [|c s IH]; intros i e Hie H r part parts.
-  - cbn [bal] in H. apply negb_true_iff in H. subst i. rewrite (Hie eq_refl). reflexivity.
-  - cbn [bal] in H. cbn [app split_aux rev]. rewrite <- app_assoc. cbn [app].
-    destruct i.
-    + destruct e; [apply IH; [discriminate|exact H]|].
-      destruct (c =? 92); [apply IH; [discriminate|exact H]|].
-      destruct (c =? 34); [apply IH; [reflexivity|exact H]|apply IH; [discriminate|exact H]].
-    + rewrite (Hie eq_refl) in *. destruct (c =? 44); [discriminate|].
-      apply IH; [|exact H]. intros _. reflexivity.
+  induction s as [|c s IH]; intros k i e part Hie H r parts.
+  - cbn [balc] in H. apply andb_true_iff in H as [Hi Hk]. apply negb_true_iff in Hi, Hk. subst i k.
+    rewrite (Hie eq_refl). reflexivity.
+  - cbn [balc] in H. cbn [app split_aux rev]. rewrite <- app_assoc. cbn [app].
+    rewrite <- blankb_cons in H.
+    destruct k.
+    + apply IH; [exact Hie|exact H].
+    + destruct i.
+      * destruct e; [apply IH; [discriminate|exact H]|].
+        destruct (c =? 92); [apply IH; [discriminate|exact H]|].
+        destruct (c =? 34); [apply IH; [reflexivity|exact H]|apply IH; [discriminate|exact H]].
+      * rewrite (Hie eq_refl) in *. destruct (c =? 44); [discriminate|].
+        apply IH; [|exact H]. intros _. reflexivity.
 Qed.
 
-Lemma bal_neutral s : bal s false false = true -> neutral s.
-Proof. intros H r part parts. apply (bal_split s false false (fun _ => eq_refl) H). Qed.
+Lemma bal_neutral s : balc s false false false true = true -> neutral s.
+Proof.
+  intros H r part parts Hb. apply (balc_split s false false false part (fun _ => eq_refl)). rewrite Hb. exact H.
+Qed.
 
 Lemma split_instr s : forall esc e',
   instr s esc = Some e' ->
   forall r part parts,
-    split_aux (s ++ r) part true esc parts = split_aux r (rev s ++ part) true e' parts.
+    split_aux (s ++ r) part false true esc parts = split_aux r (rev s ++ part) false true e' parts.
 Proof.
   induction s as [|c s IH]; intros esc e' H r part parts.
   - cbn [instr] in H. injection H as ->. reflexivity.
@@ -383,28 +465,29 @@ Qed.
 
 Lemma neutral_dumps_str s : neutral (dumps_str s).
 Proof.
-  intros r part parts. unfold dumps_str.
+  intros r part parts _. unfold dumps_str.
   change ((34 :: flat_map esc_char s ++ [34]) ++ r)
     with (34 :: (flat_map esc_char s ++ [34]) ++ r).
   rewrite <- app_assoc. cbn [split_aux].
-  change (34 =? 44) with false. change (34 =? 34) with true. cbv match.
+  change (34 =? 44) with false. change (34 =? 34) with true. change (34 =? 123) with false. cbn [andb]. cbv match.
   rewrite (split_instr _ false false (instr_flat s)).
   cbn [app split_aux]. change (34 =? 92) with false. change (34 =? 34) with true. cbv match.
   f_equal. cbn [rev]. rewrite rev_app_distr. cbn [rev app]. rewrite <- app_assoc. reflexivity.
 Qed.
 
 Lemma split_join ps : forall p part parts,
-  neutral p -> Forall neutral ps ->
-  split_aux (join [44; 32] (p :: ps)) part false false parts
+  blankb part = true -> neutral p -> Forall neutral ps ->
+  split_aux (join [44; 32] (p :: ps)) part false false false parts
   = rev parts ++ (rev part ++ p) :: map (cons 32) ps.
 Proof.
-  induction ps as [|q ps IH]; intros p part parts Hp Hps.
-  - cbn [join map]. rewrite <- (app_nil_r p) at 1. rewrite Hp.
+  induction ps as [|q ps IH]; intros p part parts Hb Hp Hps.
+  - cbn [join map]. rewrite <- (app_nil_r p) at 1. rewrite (Hp _ _ _ Hb).
     cbn [split_aux rev]. rewrite rev_app_distr, rev_involutive. reflexivity.
   - inversion Hps as [|? ? Hq Hps']; subst.
-    rewrite join_cons2. rewrite Hp. cbn [app split_aux].
+    rewrite join_cons2. rewrite (Hp _ _ _ Hb). cbn [app split_aux].
     change (44 =? 44) with true. change (32 =? 44) with false. change (32 =? 34) with false.
-    cbv match. rewrite (IH q [32] _ Hq Hps').
+    change (32 =? 123) with false. cbn [andb].
+    cbv match. rewrite (IH q [32] _ eq_refl Hq Hps').
     cbn [rev map app]. rewrite rev_app_distr, rev_involutive, <- app_assoc. reflexivity.
 Qed.
 
@@ -415,13 +498,13 @@ Qed.
 Record part_ok (p : str) : Prop :=
   { po_neutral : neutral p; po_strip : strip p = p; po_nolb : no_lb p }.
 
-Lemma part_ok_chars p : Forall (fun c => 33 <= c <= 126 /\ c <> 44 /\ c <> 34) p -> part_ok p.
+Lemma part_ok_chars p : Forall (fun c => 33 <= c <= 126 /\ c <> 44 /\ c <> 34 /\ c <> 123) p -> part_ok p.
 Proof.
   intros H. split.
-  - apply neutral_plain. eapply Forall_impl; [|exact H]. intros c (H1 & H2 & H3). split; assumption.
-  - apply strip_no_sp. eapply Forall_impl; [|exact H]. intros c (H1 & H2 & H3).
+  - apply neutral_plain. eapply Forall_impl; [|exact H]. intros c (H1 & H2 & H3 & H4). repeat split; assumption.
+  - apply strip_no_sp. eapply Forall_impl; [|exact H]. intros c (H1 & H2 & H3 & H4).
     apply is_space_graph. exact H1.
-  - eapply Forall_impl; [|exact H]. intros c (H1 & H2 & H3). apply is_linebreak_printable. lia.
+  - eapply Forall_impl; [|exact H]. intros c (H1 & H2 & H3 & H4). apply is_linebreak_printable. lia.
 Qed.
 
 Lemma encode_ok e v p :
@@ -449,7 +532,7 @@ Proof.
   destruct e, v; cbn [wf_val]; intros H; try contradiction; eexists; reflexivity.
 Qed.
 
-Lemma kw_char_range c : kw_char c = true -> 33 <= c <= 126 /\ c <> 44 /\ c <> 34.
+Lemma kw_char_range c : kw_char c = true -> 33 <= c <= 126 /\ c <> 44 /\ c <> 34 /\ c <> 123.
 Proof.
   unfold kw_char. intros H.
   repeat (apply orb_true_iff in H as [H|H]).
@@ -550,6 +633,15 @@ Proof.
     rewrite (skipn_nth _ _ _ Hv). reflexivity.
 Qed.
 
+Lemma merge_rest_id n ps : length ps = n -> merge_rest n ps = ps.
+Proof.
+  intros H. destruct n as [|m]; [reflexivity|]. unfold merge_rest.
+  rewrite (proj2 (Nat.ltb_ge _ _)) by lia.
+  rewrite <- (firstn_skipn m ps) at 3. f_equal.
+  assert (L : length (skipn m ps) = 1%nat) by (rewrite skipn_length; lia).
+  destruct (skipn m ps) as [|x [|y l]]; try discriminate. reflexivity.
+Qed.
+
 Definition bracketed (l : str) : Prop := exists body, l = 91 :: body ++ [93].
 
 Lemma make_action_format a line :
@@ -586,15 +678,17 @@ Proof.
   - unfold make_action. cbn [tl]. rewrite removelast_last.
     unfold split_params.
     rewrite split_join;
-      [|apply Hkwp|eapply Forall_impl; [|exact Hparts]; intros p Hp; apply Hp].
+      [|reflexivity|apply Hkwp|eapply Forall_impl; [|exact Hparts]; intros p Hp; apply Hp].
     cbn [rev app map]. rewrite (po_strip _ Hkwp).
     replace (map strip (map (cons 32) parts)) with parts.
     2:{ rewrite map_map. clear -Hparts. induction Hparts as [|p ps Hp _ IH]; [reflexivity|].
         cbn [map]. rewrite <- IH. rewrite strip_space_cons by reflexivity.
         rewrite (po_strip _ Hp). reflexivity. }
     rewrite Epe.
-    replace (length parts) with (pe_nparams pe)
-      by (rewrite Hnp; apply (Forall2_len _ _ _ Hslots)).
+    assert (Hlp : length parts = pe_nparams pe) by (rewrite Hnp; symmetry; apply (Forall2_len _ _ _ Hslots)).
+    replace (if pe_rest pe then merge_rest (pe_nparams pe) parts else parts) with parts
+      by (destruct (pe_rest pe); [symmetry; apply merge_rest_id, Hlp|reflexivity]).
+    rewrite Hlp.
     rewrite Nat.eqb_refl. cbn [negb].
     rewrite (args_decode _ _ _ _ Hdec (pe_args pe) 0%nat Hargs) by (cbn [Nat.add]; lia).
     cbn [bind skipn]. rewrite Hpector. destruct a; reflexivity.
